@@ -77,6 +77,13 @@ def verdict_discipline(P, R, V):
             path = f.path_avoiding(None, pred, from_entry=True)
             R.ob('C01.MPT.1', path is None, f, 'every path through %s %s' % (f.name, nm), key=nm,
                  detail=('path avoiding it: lines %s' % f.path_lines(path)) if path else None)
+        # exactly one: no second verdict line is reachable behind a verdict line
+        for s in f.sites():
+            if not sends(s):
+                continue
+            again = [t for t in f.block_sites(s.bid)[s.idx + 1:] if sends(t)]
+            again += [t for b in f.reach([e.dst for e in f.out[s.bid]]) for t in f.block_sites(b) if sends(t)]
+            R.ob('C01.MPT.1', not again, s, 'no second verdict line is reachable behind this one', key='one-verdict', detail=[t.loc for t in again] or None)
         # ordering: the retire comes after the mark and the send on every path
         for s in f.sites():
             if not retires(s):
